@@ -360,6 +360,16 @@ impl<'a> Rw<'a> {
     }
 }
 
+fn is_boolish(e: &Expr) -> bool {
+    match e {
+        Expr::MethodCall(m) => m.method.to_string().starts_with("is_"),
+        Expr::Binary(b) => matches!(b.op, syn::BinOp::Lt(_) | syn::BinOp::Le(_) | syn::BinOp::Gt(_) | syn::BinOp::Ge(_) | syn::BinOp::Eq(_) | syn::BinOp::Ne(_) | syn::BinOp::And(_) | syn::BinOp::Or(_)),
+        Expr::Unary(u) => matches!(u.op, syn::UnOp::Not(_)) && is_boolish(&u.expr),
+        Expr::Paren(p) => is_boolish(&p.expr),
+        _ => false,
+    }
+}
+
 fn has_logging_cfg(attrs: &[syn::Attribute]) -> bool {
     attrs.iter().any(|a| {
         a.path().is_ident("cfg") && {
@@ -652,6 +662,12 @@ impl<'a> VisitMut for Rw<'a> {
                     let r = &b.right;
                     self.fire("R-OPASSIGN");
                     replacement = Some(parse_quote!(#l = #l #op (#r)));
+                } else if matches!(b.op, BitAnd(_) | BitOr(_)) && (is_boolish(&b.left) || is_boolish(&b.right)) {
+                    // R-BOOLOP: non-short-circuit `&` / `|` on pure boolean operands
+                    let l = &b.left;
+                    let r = &b.right;
+                    self.fire("R-BOOLOP");
+                    replacement = Some(if matches!(b.op, BitAnd(_)) { parse_quote!(#l && #r) } else { parse_quote!(#l || #r) });
                 }
             }
             Expr::Cast(c) => {
@@ -793,6 +809,8 @@ impl<'a> VisitMut for Rw<'a> {
 struct Marker {
     counters: BTreeMap<String, usize>,
     events: Vec<String>,
+    /// set by the parent: the next block visited is in unit (statement) context
+    pending_unit: Option<bool>,
 }
 
 fn short(s: String) -> String {
@@ -865,8 +883,27 @@ impl Marker {
     }
 }
 
+impl Marker {
+    fn visit_if_unit(&mut self, i: &mut syn::ExprIf) {
+        self.visit_expr_mut(&mut i.cond);
+        self.pending_unit = Some(true);
+        self.visit_block_mut(&mut i.then_branch);
+        if let Some((_, eb)) = &mut i.else_branch {
+            match &mut **eb {
+                Expr::If(i2) => self.visit_if_unit(i2),
+                Expr::Block(b) => {
+                    self.pending_unit = Some(true);
+                    self.visit_block_mut(&mut b.block);
+                }
+                other => self.visit_expr_mut(other),
+            }
+        }
+    }
+}
+
 impl VisitMut for Marker {
     fn visit_block_mut(&mut self, b: &mut syn::Block) {
+        let unit = self.pending_unit.take().unwrap_or(false);
         let old = std::mem::take(&mut b.stmts);
         let n_old = old.len();
         let mut out = Vec::with_capacity(n_old * 3);
@@ -895,9 +932,21 @@ impl VisitMut for Marker {
             };
             let n = self.next(&key);
             out.push(self.mark("before", &key, n));
-            self.visit_stmt_mut(&mut s);
+            // an `if` in statement position: its blocks are unit context
+            let stmt_pos_if = match &s {
+                Stmt::Expr(Expr::If(_), semi) => semi.is_some() || !is_last || unit,
+                _ => false,
+            };
+            if stmt_pos_if {
+                if let Stmt::Expr(Expr::If(i), _) = &mut s {
+                    self.visit_if_unit(i);
+                }
+            } else {
+                self.visit_stmt_mut(&mut s);
+            }
             let diverges = matches!(&s, Stmt::Expr(Expr::Return(_), _) | Stmt::Expr(Expr::Break(_), _) | Stmt::Expr(Expr::Continue(_), _));
-            let tail_like = is_tail || (is_last && matches!(&s, Stmt::Expr(_, None)));
+            let unit_ctrl = unit && matches!(&s, Stmt::Expr(Expr::If(_) | Expr::While(_) | Expr::ForLoop(_) | Expr::Loop(_), None));
+            let tail_like = is_tail || (is_last && matches!(&s, Stmt::Expr(_, None)) && !unit_ctrl);
             out.push(s);
             if !tail_like && !diverges {
                 out.push(self.mark("after", &key, n));
@@ -911,7 +960,9 @@ impl VisitMut for Marker {
                 let n = self.next("L:while");
                 let s = format!("while#{}", n);
                 self.events.push(format!("loop {}", s));
-                visit_mut::visit_expr_while_mut(self, w);
+                self.visit_expr_mut(&mut w.cond);
+                self.pending_unit = Some(true);
+                self.visit_block_mut(&mut w.body);
                 let lit = syn::LitStr::new(&s, Span::call_site());
                 w.body.stmts.insert(0, parse_quote!(vx_loop!(#lit);));
             }
@@ -919,7 +970,9 @@ impl VisitMut for Marker {
                 let n = self.next("L:for");
                 let s = format!("for#{}", n);
                 self.events.push(format!("loop {}", s));
-                visit_mut::visit_expr_for_loop_mut(self, w);
+                self.visit_expr_mut(&mut w.expr);
+                self.pending_unit = Some(true);
+                self.visit_block_mut(&mut w.body);
                 let lit = syn::LitStr::new(&s, Span::call_site());
                 w.body.stmts.insert(0, parse_quote!(vx_loop!(#lit);));
             }
@@ -927,7 +980,8 @@ impl VisitMut for Marker {
                 let n = self.next("L:loop");
                 let s = format!("loop#{}", n);
                 self.events.push(format!("loop {}", s));
-                visit_mut::visit_expr_loop_mut(self, w);
+                self.pending_unit = Some(true);
+                self.visit_block_mut(&mut w.body);
                 let lit = syn::LitStr::new(&s, Span::call_site());
                 w.body.stmts.insert(0, parse_quote!(vx_loop!(#lit);));
             }
@@ -1120,7 +1174,8 @@ fn process_fn(req: &ItemReq, opts: &Opts, file: &syn::File, uc: &BTreeMap<String
     let mut block = found.block.clone();
 
     // 1. markers on original statements
-    let mut mk = Marker { counters: BTreeMap::new(), events: vec![] };
+    let mut mk = Marker { counters: BTreeMap::new(), events: vec![], pending_unit: None };
+    mk.pending_unit = Some(matches!(sig.output, syn::ReturnType::Default));
     mk.visit_block_mut(&mut block);
     let cid = syn::LitStr::new(&req.id, Span::call_site());
     block.stmts.insert(0, parse_quote!(vx_contract!(#cid);));
@@ -1162,6 +1217,11 @@ fn process_fn(req: &ItemReq, opts: &Opts, file: &syn::File, uc: &BTreeMap<String
                 }
             }
         }
+    }
+    if opts.extra.contains_key("as_free") && !matches!(sig.inputs.first(), Some(syn::FnArg::Receiver(_))) {
+        free_fn = true;
+        impl_of = None;
+        *rules_pre.entry("R-SELF.static_free".into()).or_insert(0) += 1;
     }
     if req.kind == "traitfn" {
         // default trait method: emitted as a method of the instantiating type named in opts.extra["impl_for"]
